@@ -147,7 +147,7 @@ def one_case(mon, rng, c):
         if led.sup:
             choices += ["borrow"] * 2
         if led.bor:
-            choices += ["repay", "repay_all", "repay_coll", "repay_half_twice"]
+            choices += ["repay", "repay_all", "repay_coll", "repay_half_twice", "repay_over"]
         op = rng.choice(choices)
         wb = {k.name: v.balance for k, v in fz.broker.assets.items()}
         sup_before, bor_before = dict(led.sup), dict(led.bor)
@@ -203,12 +203,47 @@ def one_case(mon, rng, c):
             if res.ok:
                 led.bor[name] = led.bor.get(name, Fraction(0)) + F(a) / idx(name, "b")
                 exp_wallet[name] = F(a)
-        elif op in ("repay", "repay_all", "repay_coll", "repay_half_twice"):
+        elif op in ("repay", "repay_all", "repay_coll", "repay_half_twice", "repay_over"):
             bname = rng.choice(sorted(led.bor))
             bt = tok[bname]
             cur = led.bor[bname] * idx(bname, "b")
             name = bname
-            if op == "repay_all":
+            if op == "repay_over":
+                # a repayment larger than the debt, by a hair (the debt rounded up to the token's own last decimal, a few 1e-18,
+                # one part in 1e12) or by half: whatever is accepted must move exactly that amount out of the debt
+                from decimal import ROUND_CEILING
+                curd = Decimal(cur.numerator) / Decimal(cur.denominator)
+                kind = rng.choice(["token-decimals", "token-decimals", "wei", "ppt", "half-more"])
+                if kind == "token-decimals":
+                    a = curd.quantize(Decimal(10) ** -bt.decimal, rounding=ROUND_CEILING)
+                elif kind == "wei":
+                    a = curd.quantize(Decimal(10) ** -18, rounding=ROUND_CEILING) + Decimal(rng.choice([1, 2, 7])) / Decimal(10**18)
+                elif kind == "ppt":
+                    a = curd * (1 + Decimal("1e-12"))
+                else:
+                    a = curd * Decimal("1.5")
+                label = f"repay_over/{kind}"
+                over_scaled = (F(a) - cur) / idx(bname, "b")
+                if over_scaled <= 0:
+                    continue
+                # the code compares scaled balances rounded at 1e-18 (its quantum): only an excess beyond that must be refused
+                must_reject = over_scaled > Fraction(3, 2) / 10**18
+                res = Dr.call_op(m.repay, bt, a)  # cash (with collateral the contract lowers the repayment: repay_coll covers it)
+                mon.ev()
+                mon.cls(f"repay-over/{kind}/{'must-reject' if must_reject else 'within-quantum'}/{'accepted' if res.ok else 'rejected'}")
+                mon.hit("repay_over")
+                if res.ok and must_reject:
+                    mon.violation("aave", "repay", "repayment-beyond-debt-accepted", f"{kind}/dec{bt.decimal}",
+                                  f"repay({bname}, {a}) accepted with a debt of {float(cur)!r} (over by {float(F(a) - cur):.3e}, scaled "
+                                  f"{float(over_scaled):.3e}): the payer is charged {a} while only the debt can disappear "
+                                  f"(case {c}, trace {trace[-3:]})")
+                    return
+                if res.ok:
+                    led.bor.pop(bname)
+                    exp_wallet[bname] = -F(a)
+            if op == "repay_over":
+                pass  # done above; a rejection is handled like any other below
+            elif op == "repay_all":
                 rep = m.get_borrow(bt).amount
                 res = Dr.call_op(m.repay, bt, None)
                 if res.ok:
